@@ -99,7 +99,8 @@ pub fn run_with_interpreter(mut it: Interpreter<f32>) {
                     rl.add_history_entry(source.clone());
                     source.clear();
                 }
-				else {
+				else if !source.ends_with('\n') {
+					// when the input is not a terminal the line still has its newline
 					source.push('\n');
 				}
             }
